@@ -5,7 +5,6 @@
 package main
 
 import (
-	"sync/atomic"
 	"fmt"
 	"os"
 	"runtime"
@@ -13,6 +12,7 @@ import (
 	"runtime/pprof"
 	"sort"
 	"sync"
+	"sync/atomic"
 
 	"cvssmc/internal/ev"
 )
